@@ -49,6 +49,8 @@ type vfEnv struct {
 	FnU8  func(uint8) int
 	FnF   func(float64) float64
 	FnI64 func(int64) int64
+	Vf    func(string, ...interface{}) interface{}
+	Vv    func(...interface{}) interface{}
 }
 
 func (e vfEnv) Twice(x int) int {
@@ -163,6 +165,8 @@ func vfMakeEnv(src string, maxLen int) *vfEnv {
 	e.FnU8 = func(x uint8) int { vfLog = append(vfLog, vfCall{"FnU8", int(x), 0}); return int(x) }
 	e.FnF = func(x float64) float64 { vfLog = append(vfLog, vfCall{"FnF", 0, 0}); return x }
 	e.FnI64 = func(x int64) int64 { vfLog = append(vfLog, vfCall{"FnI64", int(x), 0}); return x }
+	e.Vf = func(f string, xs ...interface{}) interface{} { return len(xs) }
+	e.Vv = func(xs ...interface{}) interface{} { return len(xs) }
 	return e
 }
 
@@ -170,7 +174,7 @@ func (e *vfEnv) asMap() map[string]interface{} {
 	return map[string]interface{}{
 		"A": e.A, "B": e.B, "I64": e.I64, "U8": e.U8, "F": e.F, "P": e.P, "Q": e.Q, "S": e.S, "T": e.T,
 		"Xs": e.Xs, "Ys": e.Ys, "Xss": e.Xss, "Ss": e.Ss, "Any": e.Any, "M": e.M, "Ptr": e.Ptr, "Fn": e.Fn, "Gn": e.Gn, "Pf": e.Pf, "Qf": e.Qf, "Hf": e.Hf,
-		"FnU8": e.FnU8, "FnF": e.FnF, "FnI64": e.FnI64,
+		"FnU8": e.FnU8, "FnF": e.FnF, "FnI64": e.FnI64, "Vf": e.Vf, "Vv": e.Vv,
 	}
 }
 
